@@ -2,6 +2,7 @@
 import conv
 import fasta_lib as F
 
+EXTRA_ANCHORS = ['assembly/scripts/pretext_to_asm.py']      # files outside the property's anchors whose change escalates the quick budget (T3)
 LEVEL = "proof"
 RULE = ("complement table exhaustively over all 256 byte values (model table regenerated from the source vs bytes.translate vs an independent IUPAC statement); "
         "random byte strings; random scaffolds (strands +,-,?; gaps; tags) reversed once and twice; streaming a reversed scaffold vs revcomp of streaming the "
